@@ -1886,7 +1886,17 @@ func (c *Conn) newestRecord(epoch uint16, sequenceNumber uint64, latest bool) bo
 		return false
 	}
 
-	return latest && epoch == dtlsstate.CommonState(c.state).RemoteEpoch()
+	// Newest means: of the highest epoch in which a record has been received.
+	// The epoch the peer is allowed to use next does not count: the peer stays
+	// in the old one until it has our acknowledgement, and may have to reach us
+	// from a new address to get it.
+	for higher := int(epoch) + 1; higher < len(c.replayAccepted); higher++ {
+		if c.replayAccepted[higher] {
+			return false
+		}
+	}
+
+	return latest
 }
 
 func (c *Conn) queueIfCipherSuiteUninitialized(
